@@ -3,6 +3,7 @@
    validators and the transaction characteristics regenerated from variables.py / charset.py / intercept.py. *)
 From Coq Require Import List NArith ZArith Bool Lia String.
 From MM Require Import Lib.Decimal Model.Vars Proofs.VarsProofs Gen.FactsCharset Gen.FactsVars.
+From MM Require Import Gen.FactsOutline.
 Import ListNotations.
 Open Scope N_scope.
 
@@ -27,6 +28,12 @@ Theorem c14_source_shape :
   intercept_value_to_expression_ok = true /\ intercept_expression_to_value_ok = true /\
   handshake_announces_version_variable = true /\ forced_assignments = ["external_user"]%string /\ forced_assignment_sites = 2%nat.
 Proof. repeat split; reflexivity. Qed.
+
+(* the modules this property rests on define the functions, classes, methods and class-level names they defined when the
+   model was transcribed - nothing added (an override, a new helper in the path), removed or renamed *)
+Theorem c14_module_outlines : translated_outline = true /\ outline_variables_ok = true /\ outline_session_ok = true /\ outline_intercept_ok = true.
+Proof. repeat split; reflexivity. Qed.
+
 
 (* the regenerated schema: defaults are NULL or valid values of their type, and a fresh session can work *)
 Lemma schema_defaults : defaults_ok SV usable.
